@@ -37,6 +37,8 @@ FEATURE_TEXT = {
 def render(case: dict) -> str:
     kind = case["kind"]
     content_lines = ["first line"] + [FEATURE_TEXT[f] for f in sorted(case["feats"])] + ["last line"]
+    if list(case["feats"]) == ["blank1"]:
+        content_lines = [FEATURE_TEXT["blank1"]]      # a literal whose only inner line is blank (first / blank / last)
     multi = "\n".join(content_lines)
     single = " | ".join(l.replace("\n", " ").replace("\\", "/") for l in content_lines)
     if kind == "triple":
@@ -88,6 +90,15 @@ def render(case: dict) -> str:
         if kind == "comment":
             return lit_stmt + "\n"
         return "items = [\n    'first',\n\n    " + lit + " ,\n    'last',\n    'really last',\n]\nprint(items)\n"
+    if place == "kwarg_blank":
+        if kind == "comment":
+            return lit_stmt + "\n"
+        return ("def register(**kw):\n    print(sorted(kw.items()))\n\n\nregister(\n    name=\"report\",\n\n    template = " + lit +
+                " ,\n    fallback=None,\n)\n")
+    if place == "tuple_elem_blank":
+        if kind == "comment":
+            return lit_stmt + "\n"
+        return "MESSAGES = [\n    \"short\",\n\n    (\"greeting\" , " + lit + "),\n    \"tail\",\n]\nprint(MESSAGES)\n"
     if place == "dict_value":
         if kind == "comment":
             return lit_stmt + "\n"
@@ -98,7 +109,7 @@ def render(case: dict) -> str:
 def layout_cases(rep: Report, t: str):
     kinds = '{"triple", "triple_single", "raw_triple", "bytes_triple", "fstring_triple", "docstring", "single", "concat", "comment"}'
     feats = '{"tab", "trailing", "blanks3", "blanks2", "blank1", "long", "backslash", "hash", "crlf_escape", "indent8"}'
-    places = '{"module", "in_def", "after_decorator", "between_imports", "call_arg", "dict_value", "list_elem_blank"}'
+    places = '{"module", "in_def", "after_decorator", "between_imports", "call_arg", "dict_value", "list_elem_blank", "kwarg_blank", "tuple_elem_blank"}'
     lens, maxf = ("{60, 100}", 2) if t == "quick" else ("{60, 79, 100}", 3)
     cfg = "\n".join(["CONSTANTS", f"  Kinds = {kinds}", f"  Features = {feats}", f"  Places = {places}",
                      f"  LineLengths = {lens}", f"  MaxFeatures = {maxf}", "INIT Init", "NEXT Next", "INVARIANT Dump",
